@@ -340,8 +340,11 @@ class SArr:
     def __deepcopy__(self, memo):
         return self.copy()
 
-    def astype(self, dtype, copy=True):
+    def astype(self, dtype, copy=True, **_k):
         dt = dtype_name(dtype)
+        if not copy and dt == self.dtype_:
+            # numpy: no copy when the type already matches (the result IS the array)
+            return self
         return SArr(self.shape, [coerce_elem(d, dt) for d in self.data], dt)
 
     def item(self, *a):
